@@ -5611,3 +5611,608 @@ func E11BreakSums(c *core.Ctx, r *core.Report) {
 	r.Count("E11.breakpoints-with-parent", n)
 	r.Floor("E11.breakpoints-with-parent", 2)
 }
+
+// E11GlyphIndexDomain: the glyph→run lookup is given a glyph index.
+func E11GlyphIndexDomain(c *core.Ctx, r *core.Report) {
+	r.Rule("E11.glyph-index-domain", "RichText.ToText keeps several index spaces (bytes, runes, glyphs, items, runs). `glyphIndices.index(x)` maps a glyph index to its run; its argument must be a glyph index: a variable that is also used to index or slice the glyph slice in the function, and that is never used to index or slice the rune slice. The variable left over from the itemising loop counts runes; used here it selects the last run whatever the line, so an empty line takes its height from the last face of the text")
+	p := c.MustPkg("")
+	info := p.TypesInfo
+	fd := core.MustFuncDecl(p, "RichText.ToText")
+	r.Func("canvas.RichText.ToText")
+	elemKind := func(e ast.Expr) string {
+		t := info.TypeOf(e)
+		if t == nil {
+			return ""
+		}
+		if s, ok := t.Underlying().(*types.Slice); ok {
+			es := s.Elem().String()
+			switch {
+			case strings.HasSuffix(es, "text.Glyph"):
+				return "glyph"
+			case es == "rune" || es == "int32":
+				return "rune"
+			}
+		}
+		return ""
+	}
+	uses := map[types.Object]map[string]bool{}
+	note := func(idx ast.Expr, kind string) {
+		ast.Inspect(idx, func(k ast.Node) bool {
+			if id, ok := k.(*ast.Ident); ok {
+				if o := core.ObjOf(info, id); o != nil {
+					if uses[o] == nil {
+						uses[o] = map[string]bool{}
+					}
+					uses[o][kind] = true
+				}
+			}
+			return true
+		})
+	}
+	ast.Inspect(fd.Body, func(m ast.Node) bool {
+		switch x := m.(type) {
+		case *ast.IndexExpr:
+			if k := elemKind(x.X); k != "" {
+				note(x.Index, k)
+			}
+		case *ast.SliceExpr:
+			if k := elemKind(x.X); k != "" {
+				for _, b := range []ast.Expr{x.Low, x.High} {
+					if b != nil {
+						note(b, k)
+					}
+				}
+			}
+		}
+		return true
+	})
+	// kinds flow through plain copies `a := b` / `a = b` (and sums of such variables) in both directions
+	for changed := true; changed; {
+		changed = false
+		ast.Inspect(fd.Body, func(m ast.Node) bool {
+			as, ok := m.(*ast.AssignStmt)
+			if !ok || len(as.Lhs) != len(as.Rhs) {
+				return true
+			}
+			for i, l := range as.Lhs {
+				lid, ok1 := l.(*ast.Ident)
+				rid, ok2 := core.Unparen(as.Rhs[i]).(*ast.Ident)
+				if !ok1 || !ok2 {
+					continue
+				}
+				lo, ro := core.ObjOf(info, lid), core.ObjOf(info, rid)
+				if lo == nil || ro == nil {
+					continue
+				}
+				for _, pair := range [][2]types.Object{{lo, ro}, {ro, lo}} {
+					for k := range uses[pair[0]] {
+						if uses[pair[1]] == nil {
+							uses[pair[1]] = map[string]bool{}
+						}
+						if !uses[pair[1]][k] {
+							uses[pair[1]][k] = true
+							changed = true
+						}
+					}
+				}
+			}
+			return true
+		})
+	}
+	// the glyph→run indexer: the indexer local that is appended with len(<glyph slice>)
+	var glyphIndexer types.Object
+	ast.Inspect(fd.Body, func(m ast.Node) bool {
+		as, ok := m.(*ast.AssignStmt)
+		if !ok || len(as.Lhs) != 1 || len(as.Rhs) != 1 {
+			return true
+		}
+		call, ok := as.Rhs[0].(*ast.CallExpr)
+		if !ok || len(call.Args) != 2 {
+			return true
+		}
+		if f, ok := call.Fun.(*ast.Ident); !ok || f.Name != "append" {
+			return true
+		}
+		if lc, ok := core.Unparen(call.Args[1]).(*ast.CallExpr); ok && len(lc.Args) == 1 {
+			if f, ok := lc.Fun.(*ast.Ident); ok && f.Name == "len" && elemKind(lc.Args[0]) == "glyph" {
+				if id, ok := as.Lhs[0].(*ast.Ident); ok {
+					glyphIndexer = core.ObjOf(info, id)
+				}
+			}
+		}
+		return true
+	})
+	n := 0
+	ast.Inspect(fd.Body, func(m ast.Node) bool {
+		call, ok := m.(*ast.CallExpr)
+		if !ok || len(call.Args) != 1 {
+			return true
+		}
+		se, ok := call.Fun.(*ast.SelectorExpr)
+		if !ok || se.Sel.Name != "index" {
+			return true
+		}
+		if rid, ok := core.Unparen(se.X).(*ast.Ident); !ok || glyphIndexer == nil || core.ObjOf(info, rid) != glyphIndexer {
+			return true
+		}
+		n++
+		key := fmt.Sprintf("canvas.RichText.ToText|glyph→run lookup #%d is given a glyph index", n)
+		id, isId := core.Unparen(call.Args[0]).(*ast.Ident)
+		if !isId {
+			r.OK("E11.glyph-index-domain", key, c.Pos(call.Pos()), "expression: "+c.Src(call.Args[0]))
+			return true
+		}
+		u := uses[core.ObjOf(info, id)]
+		switch {
+		case u["rune"]:
+			r.Fail("E11.glyph-index-domain", key, c.Pos(call.Pos()), fmt.Sprintf("`%s` indexes the rune slice elsewhere in the function, it is not a glyph index: the lookup returns the run of an unrelated position (the last one)", id.Name))
+		case u["glyph"]:
+			r.OK("E11.glyph-index-domain", key, c.Pos(call.Pos()), id.Name)
+		default:
+			r.Fail("E11.glyph-index-domain", key, c.Pos(call.Pos()), fmt.Sprintf("`%s` is never used to index the glyph slice: it cannot be told to be a glyph index", id.Name))
+		}
+		return true
+	})
+	r.Count("E11.glyph-run-lookups", n)
+	r.Floor("E11.glyph-run-lookups", 3)
+}
+
+// E11MatrixInverse: the entries of Matrix.Inv are divided by the determinant itself.
+func E11MatrixInverse(c *core.Ctx, r *core.Report) {
+	r.Rule("E11.matrix-inverse", "Matrix.Inv returns the adjugate divided by the determinant. Every entry of the returned literal is a quotient whose divisor is the determinant itself: the call m.Det() or a local whose only definition is that call — not a function of it. Dividing by math.Abs(det) (a tidy-looking singularity guard reused as divisor) negates the inverse of every orientation-reversing matrix: Inv(ReflectX)·ReflectX is −I. (The cofactors themselves are arithmetic and are not decided.)")
+	p := c.MustPkg("")
+	info := p.TypesInfo
+	fd := core.MustFuncDecl(p, "Matrix.Inv")
+	r.Func("canvas.Matrix.Inv")
+	recv := recvObj(info, fd)
+	isDetCall := func(e ast.Expr) bool {
+		call, ok := core.Unparen(e).(*ast.CallExpr)
+		if !ok || len(call.Args) != 0 {
+			return false
+		}
+		se, ok := call.Fun.(*ast.SelectorExpr)
+		if !ok || se.Sel.Name != "Det" {
+			return false
+		}
+		id, ok := core.Unparen(se.X).(*ast.Ident)
+		return ok && core.ObjOf(info, id) == recv
+	}
+	isDet := func(e ast.Expr) bool {
+		if isDetCall(e) {
+			return true
+		}
+		id, ok := core.Unparen(e).(*ast.Ident)
+		if !ok {
+			return false
+		}
+		o := core.ObjOf(info, id)
+		cnt, good := 0, false
+		ast.Inspect(fd.Body, func(k ast.Node) bool {
+			if as, ok := k.(*ast.AssignStmt); ok && len(as.Lhs) == len(as.Rhs) {
+				for i, l := range as.Lhs {
+					if lid, ok := l.(*ast.Ident); ok && core.ObjOf(info, lid) == o {
+						cnt++
+						good = isDetCall(as.Rhs[i])
+					}
+				}
+			}
+			return true
+		})
+		return cnt == 1 && good
+	}
+	var lit *ast.CompositeLit
+	ast.Inspect(fd.Body, func(m ast.Node) bool {
+		if rs, ok := m.(*ast.ReturnStmt); ok && len(rs.Results) == 1 {
+			if cl, ok := core.Unparen(rs.Results[0]).(*ast.CompositeLit); ok {
+				lit = cl
+			}
+		}
+		return true
+	})
+	n := 0
+	if lit == nil {
+		r.Fail("E11.matrix-inverse", "canvas.Matrix.Inv|returned literal", c.Pos(fd.Pos()), "Inv does not return a matrix literal")
+		return
+	}
+	for i, rowE := range lit.Elts {
+		row, ok := rowE.(*ast.CompositeLit)
+		if !ok {
+			continue
+		}
+		for j, el := range row.Elts {
+			n++
+			key := fmt.Sprintf("canvas.Matrix.Inv|entry (%d,%d) is divided by the determinant itself", i, j)
+			be, ok := core.Unparen(el).(*ast.BinaryExpr)
+			if ok && be.Op == token.QUO && isDet(be.Y) {
+				r.OK("E11.matrix-inverse", key, c.Pos(el.Pos()), "")
+			} else {
+				r.Fail("E11.matrix-inverse", key, c.Pos(el.Pos()), fmt.Sprintf("`%s` is not a quotient by the determinant (m.Det() or a local defined as exactly that): the inverse of a matrix with a negative determinant comes out negated", c.Src(el)))
+			}
+		}
+	}
+	r.Count("E11.inverse-entries", n)
+	r.Floor("E11.inverse-entries", 6)
+}
+
+// E11RelativeBeforeUse: the pen point of ParseSVGPath is used only after the relative offset has been applied.
+func E11RelativeBeforeUse(c *core.Ctx, r *core.Report) {
+	r.Rule("E11.relative-before-use", "ParseSVGPath reads the coordinates of a command into its pen variable and, for a lower-case command, adds the previous point to make them absolute. In every case of the command switch, the pen variable (or a field of it) is not copied into another variable nor passed to a call before that conditional addition: what is copied earlier is the raw operand, which equals the absolute point only for upper-case commands or at the origin. A sub-path start remembered before the addition makes the pen return to the wrong point after `z` when the sub-path was opened by a relative `m`")
+	p := c.MustPkg("")
+	info := p.TypesInfo
+	fd := core.MustFuncDecl(p, "ParseSVGPath")
+	r.Func("canvas.ParseSVGPath")
+	n := 0
+	ast.Inspect(fd.Body, func(m ast.Node) bool {
+		cc, ok := m.(*ast.CaseClause)
+		if !ok || len(cc.List) == 0 {
+			return true
+		}
+		// byte constants
+		label := ""
+		for _, e := range cc.List {
+			if v, ok := core.ConstInt(info, e); ok && v > 0 && v < 128 {
+				label += string(rune(v))
+			}
+		}
+		if label == "" {
+			return true
+		}
+		// the relative adjustment: an if whose body assigns V from an expression that mentions V and another variable of the same type
+		adjIdx := -1
+		var pen types.Object
+		for k, st := range cc.Body {
+			is, ok := st.(*ast.IfStmt)
+			if !ok {
+				continue
+			}
+			ast.Inspect(is.Body, func(q ast.Node) bool {
+				as, ok := q.(*ast.AssignStmt)
+				if !ok || len(as.Lhs) != 1 || len(as.Rhs) != 1 {
+					return true
+				}
+				root := core.RootIdent(as.Lhs[0])
+				if root == nil {
+					return true
+				}
+				o := core.ObjOf(info, root)
+				selfRef := as.Tok != token.ASSIGN
+				otherSame := false
+				ast.Inspect(as.Rhs[0], func(z ast.Node) bool {
+					if id, ok := z.(*ast.Ident); ok {
+						if oo := core.ObjOf(info, id); oo == o {
+							selfRef = true
+						} else if oo != nil && o != nil && types.Identical(oo.Type(), o.Type()) {
+							otherSame = true
+						}
+					}
+					return true
+				})
+				if selfRef && otherSame && strings.HasSuffix(o.Type().String(), "canvas.Point") && adjIdx < 0 {
+					adjIdx, pen = k, o
+				}
+				return true
+			})
+		}
+		if adjIdx < 0 {
+			return true
+		}
+		n++
+		key := fmt.Sprintf("canvas.ParseSVGPath|case %s|pen point not used before the relative offset is added", label)
+		bad := token.NoPos
+		for _, st := range cc.Body[:adjIdx] {
+			ast.Inspect(st, func(q ast.Node) bool {
+				switch x := q.(type) {
+				case *ast.AssignStmt:
+					// reads on the RHS when the LHS is not the pen itself
+					lhsIsPen := true
+					for _, l := range x.Lhs {
+						if id := core.RootIdent(l); id == nil || core.ObjOf(info, id) != pen {
+							lhsIsPen = false
+						}
+					}
+					if !lhsIsPen {
+						for _, rh := range x.Rhs {
+							ast.Inspect(rh, func(z ast.Node) bool {
+								if id, ok := z.(*ast.Ident); ok && core.ObjOf(info, id) == pen && bad == token.NoPos {
+									bad = id.Pos()
+								}
+								return true
+							})
+						}
+					}
+					return false
+				case *ast.CallExpr:
+					for _, a := range x.Args {
+						ast.Inspect(a, func(z ast.Node) bool {
+							if id, ok := z.(*ast.Ident); ok && core.ObjOf(info, id) == pen && bad == token.NoPos {
+								bad = id.Pos()
+							}
+							return true
+						})
+					}
+				}
+				return true
+			})
+		}
+		if bad != token.NoPos {
+			r.Fail("E11.relative-before-use", key, c.Pos(bad), fmt.Sprintf("`%s` is read here, before the statement that adds the previous point for the lower-case command: for a relative command this is the raw offset, not the point", pen.Name()))
+		} else {
+			r.OK("E11.relative-before-use", key, c.Pos(cc.Pos()), "")
+		}
+		return true
+	})
+	r.Count("E11.relative-cases", n)
+	r.Floor("E11.relative-cases", 6)
+}
+
+// E11DerivedBeforeUpdate: a per-line value is derived from the line's indices after they have been advanced.
+func E11DerivedBeforeUpdate(c *core.Ctx, r *core.Report) {
+	r.Rule("E11.derived-before-update", "RichText.ToText, the loop over the lines: a local defined once per iteration from an index variable (`k := glyphIndices.index(a)`, `bi, bg := breaks[j].Position, ag`) describes that index as it is at the definition. Between the definition and the last use of the local, the index variable it was derived from is not advanced any more (no `x += …`, `x++` or assignment to x), unless the local is redefined. A run index taken from the line's first glyph *before* the leading white space is skipped is the run of the dropped white space: when the face changes right after it, the first character of the line is laid out in the previous face and the line no longer has the width the breaker gave it")
+	p := c.MustPkg("")
+	info := p.TypesInfo
+	fd := core.MustFuncDecl(p, "RichText.ToText")
+	r.Func("canvas.RichText.ToText")
+	// the loop over the breaks: `for j := range breaks`
+	var loop *ast.RangeStmt
+	ast.Inspect(fd.Body, func(m ast.Node) bool {
+		rs, ok := m.(*ast.RangeStmt)
+		if !ok || loop != nil {
+			return true
+		}
+		if t := info.TypeOf(rs.X); t != nil && strings.Contains(t.String(), "Breakpoint") {
+			loop = rs
+		}
+		return true
+	})
+	if loop == nil {
+		r.Fail("E11.derived-before-update", "canvas.RichText.ToText|line loop", c.Pos(fd.Pos()), "the loop over the breakpoints was not found")
+		return
+	}
+	isIndexVar := func(o types.Object) bool {
+		v, ok := o.(*types.Var)
+		if !ok || v.IsField() {
+			return false
+		}
+		b, ok := v.Type().Underlying().(*types.Basic)
+		return ok && b.Info()&types.IsInteger != 0
+	}
+	n := 0
+	for si, st := range loop.Body.List {
+		as, ok := st.(*ast.AssignStmt)
+		if !ok || as.Tok != token.DEFINE {
+			continue
+		}
+		for li, l := range as.Lhs {
+			lid, ok := l.(*ast.Ident)
+			if !ok || lid.Name == "_" {
+				continue
+			}
+			v := info.Defs[lid]
+			if v == nil {
+				continue
+			}
+			var rhs ast.Expr
+			if len(as.Rhs) == len(as.Lhs) {
+				rhs = as.Rhs[li]
+			} else if len(as.Rhs) == 1 {
+				rhs = as.Rhs[0]
+			}
+			if rhs == nil {
+				continue
+			}
+			// index variables the definition reads (declared outside this statement)
+			src := map[types.Object]bool{}
+			ast.Inspect(rhs, func(k ast.Node) bool {
+				if id, ok := k.(*ast.Ident); ok {
+					if o := core.ObjOf(info, id); o != nil && o != v && isIndexVar(o) {
+						src[o] = true
+					}
+				}
+				return true
+			})
+			if len(src) == 0 {
+				continue
+			}
+			// last use of v in the rest of the loop body
+			lastUse := token.NoPos
+			for _, later := range loop.Body.List[si+1:] {
+				ast.Inspect(later, func(k ast.Node) bool {
+					if id, ok := k.(*ast.Ident); ok && core.ObjOf(info, id) == v && id.Pos() > lastUse {
+						lastUse = id.Pos()
+					}
+					return true
+				})
+			}
+			if lastUse == token.NoPos {
+				continue
+			}
+			n++
+			key := fmt.Sprintf("canvas.RichText.ToText|per-line local #%d derived from indices that are not advanced before its last use", n)
+			bad := ""
+			for _, later := range loop.Body.List[si+1:] {
+				if later.Pos() <= lastUse && lastUse < later.End() {
+					break // the statement that holds the last use (e.g. `ai, ag = bi, bg`) reads before it writes
+				}
+				ast.Inspect(later, func(k ast.Node) bool {
+					if k == nil || k.Pos() > lastUse || bad != "" {
+						return true
+					}
+					var target ast.Expr
+					switch x := k.(type) {
+					case *ast.AssignStmt:
+						if x.Tok != token.DEFINE {
+							for _, tl := range x.Lhs {
+								if id, ok := tl.(*ast.Ident); ok && src[core.ObjOf(info, id)] {
+									target = tl
+								}
+							}
+						}
+					case *ast.IncDecStmt:
+						if id, ok := x.X.(*ast.Ident); ok && src[core.ObjOf(info, id)] {
+							target = x.X
+						}
+					}
+					if target != nil {
+						bad = fmt.Sprintf("`%s` is defined from `%s`, which is advanced at %s before `%s` is last used at %s", lid.Name, c.Src(target), c.Pos(k.Pos()), lid.Name, c.Pos(lastUse))
+					}
+					return true
+				})
+			}
+			if bad == "" {
+				r.OK("E11.derived-before-update", key, c.Pos(as.Pos()), lid.Name)
+			} else {
+				r.Fail("E11.derived-before-update", key, c.Pos(as.Pos()), bad+": the local describes the index as it was, not the position the line is laid out from")
+			}
+		}
+	}
+	r.Count("E11.per-line-derived-locals", n)
+	r.Floor("E11.per-line-derived-locals", 2)
+}
+
+// E11ResetComplete: RichText.Reset empties every container the writers fill.
+func E11ResetComplete(c *core.Ctx, r *core.Report) {
+	r.Rule("E11.reset-complete", "RichText.Reset 'resets the rich text to its initial state'. Every slice- or map-typed field of RichText that some other method grows or stores into (append, element or key assignment) is assigned in Reset. The embedded objects are keyed by their position in the text: left in place, they replace whatever text is written at that position after the reset")
+	p := c.MustPkg("")
+	info := p.TypesInfo
+	reset := core.MustFuncDecl(p, "RichText.Reset")
+	r.Func("canvas.RichText.Reset")
+	fieldOfRecv := func(fd *ast.FuncDecl, e ast.Expr) string {
+		recv := recvObj(info, fd)
+		for {
+			switch x := core.Unparen(e).(type) {
+			case *ast.IndexExpr:
+				e = x.X
+				continue
+			case *ast.SliceExpr:
+				e = x.X
+				continue
+			case *ast.SelectorExpr:
+				if id, ok := core.Unparen(x.X).(*ast.Ident); ok && recv != nil && core.ObjOf(info, id) == recv {
+					if s := info.Selections[x]; s != nil && s.Kind() == types.FieldVal {
+						switch s.Obj().Type().Underlying().(type) {
+						case *types.Slice, *types.Map:
+							return x.Sel.Name
+						}
+					}
+				}
+			}
+			return ""
+		}
+	}
+	filled := map[string]string{}
+	for _, fd := range core.AllFuncDecls(p) {
+		if fd.Body == nil || core.RecvName(fd) != "RichText" || fd == reset {
+			continue
+		}
+		ast.Inspect(fd.Body, func(m ast.Node) bool {
+			as, ok := m.(*ast.AssignStmt)
+			if !ok {
+				return true
+			}
+			for _, l := range as.Lhs {
+				if f := fieldOfRecv(fd, l); f != "" {
+					if _, seen := filled[f]; !seen {
+						filled[f] = core.FuncName(fd)
+					}
+				}
+			}
+			return true
+		})
+	}
+	resetFields := map[string]bool{}
+	ast.Inspect(reset.Body, func(m ast.Node) bool {
+		if as, ok := m.(*ast.AssignStmt); ok {
+			for _, l := range as.Lhs {
+				if f := fieldOfRecv(reset, l); f != "" {
+					resetFields[f] = true
+				}
+			}
+		}
+		return true
+	})
+	var names []string
+	for f := range filled {
+		names = append(names, f)
+	}
+	sort.Strings(names)
+	for _, f := range names {
+		key := "canvas.RichText.Reset|container field " + f + " is emptied"
+		if resetFields[f] {
+			r.OK("E11.reset-complete", key, c.Pos(reset.Pos()), "")
+		} else {
+			r.Fail("E11.reset-complete", key, c.Pos(reset.Pos()), fmt.Sprintf("the field `%s` is filled by %s but not assigned in Reset: its contents survive the reset and apply to the text written afterwards", f, filled[f]))
+		}
+	}
+	r.Count("E11.richtext-containers", len(names))
+	r.Floor("E11.richtext-containers", 3)
+}
+
+// E11NormaliseFirst: parameters that a function puts in order are not read before they are ordered.
+func E11NormaliseFirst(c *core.Ctx, r *core.Report) {
+	r.Rule("E11.normalise-first", "package canvas: a function that puts two of its parameters in order (`if b < a { a, b = b, a }`) depends on that order in everything that follows; no statement before the swap reads those parameters (outside the swap's own condition). ellipseLength orders its two angles because a clockwise arc arrives with θ2 < θ1; a shortcut placed before the swap that returns r·(θ2−θ1) gives clockwise circular arcs a negative length, and Path.Length, Reverse and Dash disagree")
+	p := c.MustPkg("")
+	info := p.TypesInfo
+	n := 0
+	for _, fd := range core.AllFuncDecls(p) {
+		if fd.Body == nil || strings.HasSuffix(c.Fset.Position(fd.Pos()).Filename, "_test.go") {
+			continue
+		}
+		isParam := func(o types.Object) bool {
+			for _, f := range fd.Type.Params.List {
+				for _, nm := range f.Names {
+					if info.Defs[nm] == o {
+						return true
+					}
+				}
+			}
+			return false
+		}
+		for si, st := range fd.Body.List {
+			is, ok := st.(*ast.IfStmt)
+			if !ok || is.Else != nil || len(is.Body.List) != 1 {
+				continue
+			}
+			as, ok := is.Body.List[0].(*ast.AssignStmt)
+			if !ok || as.Tok != token.ASSIGN || len(as.Lhs) != 2 || len(as.Rhs) != 2 {
+				continue
+			}
+			l0, ok0 := as.Lhs[0].(*ast.Ident)
+			l1, ok1 := as.Lhs[1].(*ast.Ident)
+			r0, ok2 := as.Rhs[0].(*ast.Ident)
+			r1, ok3 := as.Rhs[1].(*ast.Ident)
+			if !ok0 || !ok1 || !ok2 || !ok3 {
+				continue
+			}
+			a, b := core.ObjOf(info, l0), core.ObjOf(info, l1)
+			if a == nil || b == nil || core.ObjOf(info, r0) != b || core.ObjOf(info, r1) != a || !isParam(a) || !isParam(b) {
+				continue
+			}
+			// condition compares the two
+			be, ok := core.Unparen(is.Cond).(*ast.BinaryExpr)
+			if !ok || (be.Op != token.LSS && be.Op != token.GTR) {
+				continue
+			}
+			n++
+			fname := "canvas." + core.FuncName(fd)
+			key := fmt.Sprintf("%s|parameters %s and %s are not read before they are put in order", fname, l0.Name, l1.Name)
+			bad := token.NoPos
+			for _, prev := range fd.Body.List[:si] {
+				ast.Inspect(prev, func(k ast.Node) bool {
+					if id, ok := k.(*ast.Ident); ok && bad == token.NoPos {
+						if o := core.ObjOf(info, id); o == a || o == b {
+							bad = id.Pos()
+						}
+					}
+					return true
+				})
+			}
+			if bad != token.NoPos {
+				r.Fail("E11.normalise-first", key, c.Pos(bad), fmt.Sprintf("`%s`/`%s` are read here, before the statement at %s that swaps them into order: the value computed from them has the sign of their original order", l0.Name, l1.Name, c.Pos(is.Pos())))
+			} else {
+				r.OK("E11.normalise-first", key, c.Pos(is.Pos()), "")
+			}
+		}
+	}
+	r.Count("E11.parameter-swaps", n)
+	r.Floor("E11.parameter-swaps", 2)
+}
